@@ -187,6 +187,9 @@ func (c *Ctx) opFuncs(fn *ssa.Function) []*ssa.Function {
 						for _, a := range call.Call.Args {
 							if fv, ok := a.(*ssa.Function); ok {
 								g = fv
+								if t := boundTarget(fv); t != nil {
+									g = t
+								}
 							}
 						}
 					}
